@@ -11,7 +11,7 @@
 (* reachable model state up to K steps (the harness drops schedules that are *)
 (* proper prefixes of others).  -simulate: random walks of K steps.          *)
 EXTENDS MC_MigrationJob, Json, SequencesExt
-CONSTANTS K, GenFaults, TailLen
+CONSTANTS K, GenFaults, TailLen, Biased
 VARIABLES hist, tail         \* tail: steps taken since the job reached a terminal phase
 gvars == <<vars, hist, tail>>
 H(rec) == hist' = Append(hist, rec)
@@ -20,6 +20,9 @@ GenInit == /\ \E p0 \in Pars : InitWith(p0, "n1")
            /\ hist = <<[op |-> "reset", ttl |-> par.ttl, preempt |-> par.preempt, owned |-> par.owned, node |-> pod.node]>>
 \* only fault sets whose every index is actually reached by this reconcile (the others repeat a smaller set)
 Eff(F) == LET o == Rec(job, resv, pod, now, par, restarted, F) IN \A i \in F : i <= o.w
+\* Biased (simulation picks uniformly among successor states): pod churn and restarts only at every third step, so that
+\* random walks let the job make progress
+Rare == ~Biased \/ Len(hist) % 3 = 0
 GenStep ==
   \/ \E F \in GenFaults : Eff(F) /\ Reconcile(F) /\ H([op |-> "reconcile", fail |-> SetToSeq(F)])
   \/ \E n \in Nodes : RScheduled(n) /\ H([op |-> "rsched", node |-> n])
@@ -28,11 +31,11 @@ GenStep ==
   \/ RExpire /\ H([op |-> "rexpire"])
   \/ RDelete /\ H([op |-> "rdelete"])
   \/ \E w \in {"other", "same"} : RBind(w) /\ H([op |-> "rbind", who |-> w])
-  \/ PodDelete /\ H([op |-> "poddelete"])
+  \/ Rare /\ PodDelete /\ H([op |-> "poddelete"])
   \/ PodReady /\ H([op |-> "podready"])
-  \/ \E n \in Nodes, rdy \in BOOLEAN : PodReplace(n, rdy) /\ H([op |-> "podreplace", node |-> n, ready |-> rdy])
+  \/ Rare /\ \E n \in Nodes, rdy \in BOOLEAN : PodReplace(n, rdy) /\ H([op |-> "podreplace", node |-> n, ready |-> rdy])
   \/ (par.ttl > 0 /\ now < MaxNow /\ \E k \in 1..(MaxNow - now) : Tick(k) /\ H([op |-> "tick", n |-> k]))
-  \/ (~restarted /\ Restart /\ H([op |-> "restart"]))
+  \/ (Rare /\ ~restarted /\ Restart /\ H([op |-> "restart"]))
 GenNext == GenStep /\ tail' = IF job.phase \in Terminal THEN tail + 1 ELSE 0
 GenSpec == GenInit /\ [][GenNext]_gvars
 GenView == <<vars, tail>>
